@@ -180,14 +180,54 @@ func init() {
 	})
 	reg("rt.type", func(a []string) string {
 		name := string(unhexArg(a[0]))
-		m := ir.NewModule()
-		m.NewTypeDef(name, types.NewStruct(types.I32))
-		m2, err := asm.ParseString("x.ll", m.String())
-		if err != nil {
-			return "FAIL error"
+		// the name carried by EVERY kind of type that can be named, at its definition and at a use
+		kinds := []struct {
+			kind string
+			mk   func() types.Type
+			use  bool
+		}{
+			{"struct", func() types.Type { return types.NewStruct(types.I32) }, true},
+			{"packed", func() types.Type { t := types.NewStruct(types.I32); t.Packed = true; return t }, true},
+			{"opaque", func() types.Type { return &types.StructType{Opaque: true} }, false},
+			{"array", func() types.Type { return types.NewArray(4, types.I8) }, true},
+			{"vector", func() types.Type { return types.NewVector(2, types.I32) }, true},
+			{"scalable", func() types.Type { t := types.NewVector(2, types.I32); t.Scalable = true; return t }, true},
+			{"pointer", func() types.Type { return types.NewPointer(types.I8) }, true},
+			{"int", func() types.Type { return types.NewInt(17) }, true},
+			{"float", func() types.Type { return &types.FloatType{Kind: types.FloatKindDouble} }, true},
+			{"func", func() types.Type { return types.NewFunc(types.Void, types.I32) }, false},
+			{"mmx", func() types.Type { return &types.MMXType{} }, true},
+			{"label", func() types.Type { return &types.LabelType{} }, false},
+			{"token", func() types.Type { return &types.TokenType{} }, false},
+			{"metadata", func() types.Type { return &types.MetadataType{} }, false},
 		}
-		if len(m2.TypeDefs) != 1 || m2.TypeDefs[0].Name() != name {
-			return "FAIL"
+		want := ""
+		for _, k := range kinds {
+			m := ir.NewModule()
+			t := k.mk()
+			m.NewTypeDef(name, t)
+			if k.use {
+				m.NewGlobal("g", t).Linkage = enum.LinkageExternal
+			}
+			if want == "" {
+				want = t.String()
+			} else if t.String() != want {
+				return "FAIL " + k.kind + " spells the name " + t.String() + ", struct spells it " + want
+			}
+			text := m.String()
+			m2, err := asm.ParseString("x.ll", text)
+			if err != nil {
+				return "FAIL error " + k.kind
+			}
+			if len(m2.TypeDefs) != 1 || m2.TypeDefs[0].Name() != name {
+				return "FAIL " + k.kind
+			}
+			if k.use && (len(m2.Globals) != 1 || m2.Globals[0].ContentType != m2.TypeDefs[0]) {
+				return "FAIL use " + k.kind
+			}
+			if m2.String() != text {
+				return "FAIL not-fixpoint " + k.kind
+			}
 		}
 		return "ok"
 	})
